@@ -49,6 +49,9 @@ def store_case(col, r, idx):
             return
         if info is None or info.get('still_attached') or info.get('not_empty'):
             continue
+        if info.get('live_accepted'):
+            col.skip('store accepted a token it already holds (C07 decides)')
+            return
         col.count('store_steps')
         before_ids = None
         v = storemodel.compare_positions(h.store, h.shadow)
